@@ -158,7 +158,15 @@ def mc_and_run(ctx, family, kw, kd):
     cfg = ctx.path(f"mc_{name}.cfg")
     lib.write_cfg(cfg, constants(family, (), **kw), "MCInit", "MCNext", invariants=INVARIANTS)
     progs = ctx.path(f"prog_{name}.ndjson")
-    r = lib.tlc(ctx, MODULE_MC, cfg, tagged_out={"PROGRAM": progs}, timeout=1500)
+    # the small kinds family also measures action coverage (DESIGN 2.5c)
+    r = lib.tlc(ctx, MODULE_MC, cfg, tagged_out={"PROGRAM": progs}, timeout=1500, coverage=(family == "kinds"))
+    if family == "kinds":
+        never = r.get("actions_never_taken", [])
+        by_design = [a for a in never if a.endswith("MC_DevPanic")]   # enabled only for listed deviations; taken in the witness runs
+        ctx.cov["actions_never_taken"] = [a for a in never if a not in by_design]
+        ctx.cov["actions_disabled_by_design"] = by_design
+        if ctx.cov["actions_never_taken"]:
+            raise lib.ToolError(f"actions of the machine never taken: {ctx.cov['actions_never_taken']}")
     ctx.cov["states"] += r["distinct"]
     ctx.cov["transitions"] += r["generated"]
     n = r["counts"]["PROGRAM"]
